@@ -249,18 +249,18 @@ pub fn run(cat: &Catalog, cfg: &Config, stats: &mut Stats, run_seed: u64) -> Vec
 
     // C13: a value of the 200-constructor enum (indices above 127 need a two-byte varint)
     if focus == "C13" && sw.chance(1, 3) {
-        let e = cat.by_name("Big200").unwrap();
+        let e = cat.by_name(if sw.chance(1, 3) { "Priority" } else { "Big200" }).unwrap();
         let val = gen.val(&e.ty, &mut wl);
         if let (Outcome::Ok(bytes), Val::Enum(decl, _)) = (contain(u64::MAX, || (e.encode)(&val)).0, &val) {
-            run.trace.push(format!("a node writes Big200 constructor {decl}"));
-            let mut c = Case::new("C13", "ctor-index", "Big200", bytes.clone());
+            run.trace.push(format!("a node writes {} constructor {decl}", e.name));
+            let mut c = Case::new("C13", "ctor-index", e.name, bytes.clone());
             c.expected = Some(decl.to_string());
-            c.fault = format!("Big200 constructor K{decl:03} -> written");
+            c.fault = format!("{} constructor {decl} -> written", e.name);
             run.submit(c);
-            let mut c = Case::new("C13", "script", "Big200", bytes);
+            let mut c = Case::new("C13", "script", e.name, bytes);
             c.enc_len = c.input.len();
-            c.batch = vec![("Big200".to_string(), format!("ok:{val:?}"))];
-            c.fault = format!("Big200 constructor K{decl:03} -> read back");
+            c.batch = vec![(e.name.to_string(), format!("ok:{val:?}"))];
+            c.fault = format!("{} constructor {decl} -> read back", e.name);
             run.submit(c);
         }
     }
@@ -497,6 +497,11 @@ pub fn run(cat: &Catalog, cfg: &Config, stats: &mut Stats, run_seed: u64) -> Vec
                                         break;
                                     }
                                     enc.push(b | 0x80);
+                                }
+                                if j == u32::MAX && fl.chance(1, 2) {
+                                    // ... followed by the original (valid) index: nothing may treat
+                                    // the unknown one as "not read yet" and go on with the next
+                                    enc.extend_from_slice(&rec[m.off..m.off + m.len]);
                                 }
                                 let mut input = rec.to_vec();
                                 input.splice(m.off..m.off + m.len, enc);
